@@ -27,7 +27,7 @@ def harnesses():
                          domain="every (base, exponent) pair of the width; compositional: overflowing_mul/wrapping_mul replaced "
                                 "by their specification (decided against the real multipliers in C02 narrow_%d)" % b,
                          free_bits=2 * b, fns=[fn], covers_required=["overflows", "zero-to-zero"]))
-    for b in [2, 3, 4, 7, 8]:
+    for b in [2, 3, 4]:   # 7/8 bits need unwinding 5 and more: 10 GB and growing (TryFrom<f64> recursion), not registered
         for w, fn in enumerate(["checked_log", "log", "log10"]):
             if w == 2 and b < 4:
                 continue
